@@ -169,6 +169,22 @@ CLAIMS = {
              "(O5) are not under contract yet.",
         note=PYVC_TRUST + "; asyncio.Future/Queue contracts assumed; Packet.append by its C11 contract; bounded in "
              "requests per frame for process_packet"),
+    "C02": dict(
+        engine="pyvc+bpfvc", category="other", design_ref="DESIGN.md section 4 C02",
+        technique="contract-based deductive verification: the real source of Constant.__init__ and "
+                  "ArrayGlobalVarDesc.__set__ under the IEEE-754 standard model (z3 reals), and Stage A on the "
+                  "generated bytes of statements mixing fixed-point and integer operands against the property's "
+                  "scaled-integer formula",
+        text="Conversions: for every decimal k/100000 with |k| < 2**50 the scaled integer the generator uses for a "
+             "constant and the raw int64 a Python-side write stores are exactly k. Arithmetic, Stage A: about 750 "
+             "statements dest = A op B (+ - * / // %, x registers, x variables, decimal and integer constants, "
+             "8-byte integer operands, fixed and integer destinations) are built with the real DSL and proved "
+             "equal to the property's formula (typing: / always fixed, // always integer; scaling; dropping to the "
+             "destination) for all register and memory contents. Bounded in program shape (depth 1, 8-byte "
+             "operands); negative operands of statements that need a division fall into C01's recorded finding "
+             "R-SDIV; comparisons mixing fixed and integer operands are decided under C03.",
+        note=PYVC_TRUST + "; " + BPFVC_TRUST + "; binary64 standard model assumed; products and unsigned quotients "
+             "uninterpreted in the Stage-A proofs, lemma L-MUL-U links them to exact arithmetic"),
     "C08": dict(
         engine="pyvc+bpfvc", category="other", design_ref="DESIGN.md section 4 C08",
         technique="contract-based deductive verification: the real source of ArrayMap.collect over generated class "
